@@ -431,8 +431,9 @@ func (c *Ctx) signEFIVariableRules() {
 		if !isCall {
 			continue
 		}
-		x := dv.resolve(ir.StripConv(lc.Call.Args[0]), di.fr)
-		sameBytes := haveCD && ir.StripConv(x.v) == ir.StripConv(certData.v)
+		x := dv.resolveConv(lc.Call.Args[0], di.fr)
+		cdv := dv.resolveConv(certData.v, certData.fr)
+		sameBytes := haveCD && x.same(cdv)
 		rest := a.clone()
 		delete(rest.T, lenSym)
 		baseOK := false
